@@ -130,6 +130,11 @@ anything else reads it, or read exactly once front to back (never traversed twic
 generator / iterator / zip object); Boolean computed by the translator from the syntax trees, opaque to Lean -/
 theorem gen_iterable_arguments : derivativeRoutinesReadIterableArgumentsOnceOrMaterialiseFirst = true := by decide
 
+/-- no derivative routine builds an array whose dtype is taken from the coordinate array and fills it with a computed (possibly
+fractional) value (`np.full_like(x, v)`, `dtype=x.dtype`): on integer coordinates that would truncate the value.  Boolean computed
+by the translator from the syntax trees, opaque to Lean -/
+theorem gen_no_coordinate_typed_fill : derRoutinesDoNotFillCoordinateTypedArraysWithComputedValues = true := by decide
+
 end Gen
 
 section GenField
